@@ -548,10 +548,12 @@ func (d *ColumnDetector) singleColumnLayout(fragments []text.TextFragment, pageW
 	// Calculate bounding box of all fragments
 	bbox := fragmentsBBox(fragments)
 
-	// Sort fragments top to bottom
+	// Sort fragments top to bottom. The sort must be stable: fragments on the
+	// same baseline keep their stream order, which the line detector relies
+	// on (shouldPreserveStreamOrder) when it assembles the line text.
 	sorted := make([]text.TextFragment, len(fragments))
 	copy(sorted, fragments)
-	sort.Slice(sorted, func(i, j int) bool {
+	sort.SliceStable(sorted, func(i, j int) bool {
 		return sorted[i].Y > sorted[j].Y // Higher Y = higher on page
 	})
 
